@@ -182,7 +182,7 @@ class SrcState:
         self.ended = True
         if self.log:
             CTX.ev("end", self.sid)
-        raise _End
+        raise _EndType()  # a fresh instance: a shared one would accumulate tracebacks (and frames) forever
 
     def released(self) -> bool:
         """Closed or run to exhaustion (the C04 notion of released)."""
